@@ -63,8 +63,16 @@ def instances(tier, seed):
     pairs = [(a, b) for a in range(len(WORKLOADS)) for b in range(len(WORKLOADS))]
     rng.shuffle(pairs)
     ncore = 45 if tier == "quick" else len(pairs)
-    for i, (a, b) in enumerate(pairs):
-        out.append(("core" if i < ncore else "ext", dict(threads=[a, b], maxswitch=2, inside=1)))
+    def weight(w):
+        return sum(3 if op[0] in ("tree", "ntree") else 1 for op in WORKLOADS[w])
+    ncore_done = 0
+    for (a, b) in pairs:
+        # heavy pairs (many call-outs => many switch points) only run as long as the budget lasts
+        light = weight(a) + weight(b) <= 9
+        g = "core" if (light and ncore_done < ncore) else "ext"
+        ncore_done += g == "core"
+        out.append((g, dict(threads=[a, b], maxswitch=2, inside=1)))
+    out.sort(key=lambda x: x[0] != "core")
     if tier == "thorough":
         for _ in range(150):
             out.append(("ext", dict(threads=[rng.randrange(len(WORKLOADS)) for _ in range(3)], maxswitch=3, inside=1)))
